@@ -701,6 +701,14 @@ theorem step_ok0 (cfg : Cfg) (w : World) (g : Ghost) (e : Ev) (hI : Inv0 cfg.bac
     · rw [h1]; by_cases he : tid = "" <;> simp [he]
     · by_cases he : tid = "" <;> simpa [he] using h2
     · rw [h3, hB]; by_cases he : tid = "" <;> simp [he, setT]
+  | remDead n tid =>
+    simp only [wfEv] at hwf
+    obtain ⟨h1, h2, h3⟩ := rem_ok cfg w g n tid hS hwf
+    simp only [step, check, gstep]
+    refine ⟨?_, ?_, ?_⟩
+    · rw [h1]; by_cases he : tid = "" <;> simp [he]
+    · by_cases he : tid = "" <;> simpa [he] using h2
+    · rw [h3, hB]; by_cases he : tid = "" <;> simp [he, setT]
   | open_ n r =>
     simp only [wfEv, Bool.and_eq_true] at hwf
     simp only [step, startSourceBridge, check, gstep, hB]
@@ -826,6 +834,7 @@ theorem step_inflight (cfg : Cfg) (w : World) (e : Ev) (h1 : ∀ n tid, e ≠ .s
   | reg n r => exact reg_inflight cfg w n r
   | look n tid => simp [step, lookup_world]
   | rem n tid => exact rem_inflight cfg w n tid
+  | remDead n tid => exact rem_inflight cfg w n tid
   | open_ n r =>
     simp only [step, startSourceBridge]
     split
@@ -860,6 +869,7 @@ theorem gstep_inflight (cfg : Cfg) (g : Ghost) (e : Ev) (h1 : ∀ n tid, e ≠ .
   | slowEnd n tid => exact absurd rfl (h2 n tid)
   | reg n r => simp only [gstep]; split <;> rfl
   | rem n tid => simp only [gstep]; split <;> rfl
+  | remDead n tid => simp only [gstep]; split <;> rfl
   | open_ n r =>
     simp only [gstep]
     split
